@@ -11,6 +11,7 @@ from collections import Counter
 import common
 import omen_gen
 import omen_history
+import unicode_pool
 
 ID = "C10"
 TRUSTED = ["directories with a history: harness/omen_history.py (second / third model written INTO a directory the real loader "
@@ -282,15 +283,11 @@ def run(ctx):
     seen, nontrivial, evaluations = set(), 0, 0
     forced = [{"ip_mode": "all10"}, {"ln_mode": "all10"}, {"ngram": 2, "nalpha": 2, "density": 1.0},
               {"ngram": 5, "density": 0.4}, {"ngram": 4, "cp_mode": "wide"}, {"ngram": 3, "nalpha": 6, "cp_mode": "zero", "kmax": 2}]
-    for i in range(nmodels):
-        force = forced[i] if i < len(forced) else None
-        if force is None and ctx.rng.random() < 0.85:
-            # all-10 tables are a corner, not the bulk
-            force = {"ip_mode": ctx.rng.choice(["low", "low", "mid", "wide", "wide", "hi", "zero", "two"]),
-                     "ln_mode": ctx.rng.choice(["low", "low", "mid", "wide", "zero", "two", "hi"])}
-        om = omen_gen.gen_model(ctx.rng, force, max_strings=ctx.scale(6000, 8000))
+    def one_model(cx, om):
+        nonlocal vio, evaluations, nontrivial
+        dist["models_with_a_non_nfc_ngram"] += any(not unicode_pool.nfc_stable(s) for _, s in om["ip"] + om["cp"])
         key = omen_gen.model_key(om)
-        case, v, info = explore_model(ctx, om, sc, C, py_cap, dist)
+        case, v, info = explore_model(cx, om, sc, C, py_cap, dist)
         vio += v
         dist["models"] += 1
         dist["ngram_%d" % om["ngram"]] += 1
@@ -307,6 +304,36 @@ def run(ctx):
             T, o, _, _ = max(case["levels"], key=lambda x: len(x[1]))
             samples.append({"ngram": om["ngram"], "alphabet": om["alphabet"], "modes": om["modes"], "level": T,
                             "emitted": len(o), "first": o[:4]})
+
+    for i in range(nmodels):
+        force = forced[i] if i < len(forced) else None
+        if force is None and ctx.rng.random() < 0.85:
+            # all-10 tables are a corner, not the bulk
+            force = {"ip_mode": ctx.rng.choice(["low", "low", "mid", "wide", "wide", "hi", "zero", "two"]),
+                     "ln_mode": ctx.rng.choice(["low", "low", "mid", "wide", "zero", "two", "hi"])}
+        one_model(ctx, omen_gen.gen_model(ctx.rng, force, max_strings=ctx.scale(6000, 8000)))
+    # ---- n-grams that are NOT in Unicode normal form C (harness/unicode_pool.py: base letter + combining mark, two marks in
+    # non-canonical order, singletons U+212B / U+2126 / U+212A / U+037E, Hangul conjoining jamo, CJK compatibility ideographs,
+    # mostly with the composed twin in the same alphabet; every 5th a control that NFC leaves alone), in utf-8 / utf-16 /
+    # utf-16-le: an n-gram is `ngram` CODE POINTS of the file, whatever they would compose to.  These models are ADDED to
+    # the ones above and draw from a random stream of their own (the exploration above is the same with and without them).
+    import copy
+    import random
+    ucx = copy.copy(ctx)
+    ucx.rng = random.Random("C10-non-nfc-%s" % ctx.seed)
+    for j in range(ctx.scale(12, 80)):
+        control = j % 5 == 4
+        force = {"ip_mode": ucx.rng.choice(["low", "low", "mid", "wide", "wide", "hi", "zero", "two"]),
+                 "ln_mode": ucx.rng.choice(["low", "low", "mid", "wide", "zero", "two", "hi"]),
+                 "alphabet": unicode_pool.omen_alphabet(ucx.rng, control=control),
+                 "ngram": ucx.rng.choice([2, 2, 3, 3, 4]), "density": ucx.rng.choice([1.0, 1.0, 0.8, 0.6])}
+        encoding = ["utf-8", "utf-16", "utf-8", "utf-16-le"][j % 4]
+        om = omen_gen.gen_model(ucx.rng, force, max_strings=ctx.scale(3000, 6000))
+        if encoding != "utf-8":
+            om["encoding"] = encoding
+        dist["non_nfc_alphabets"] += not control
+        dist["non_nfc_alphabets_" + encoding] += not control
+        one_model(ucx, om)
     vio += long_session(ctx, sc, C, dist)
     # ---- directories with a history: a second (third) model written into a directory that was already loaded
     import time
@@ -352,7 +379,9 @@ def run(ctx):
                          % ([members[k][j] for j in idx], json.dumps({q: c["om"][q] for q in ("ngram", "ip", "cp", "ln")})[:700])))
         else:
             corr.append(("omen-run:" + name, True, ""))
-    rule = ("random OMEN directories (ngram 2-5, 2-6 symbols incl. non-ASCII, dense/sparse, dead-end prefixes, level modes "
+    rule = ("random OMEN directories (ngram 2-5, 2-6 symbols incl. non-ASCII - plus 12 (thorough 80) models over an alphabet whose n-grams are not in "
+            "Unicode normal form C: combining marks after their base letter, singletons, Hangul jamo, CJK compatibility ideographs, "
+            "with the composed twins, utf-8 / utf-16 / utf-16-le -, dense/sparse, dead-end prefixes, level modes "
             "zero/low/mid/wide/hi/all-10 for IP, CP and LN independently), read by the real loader; every level 0..min(max,12), "
             "up to 3 higher non-empty ones and an empty one: MarkovCracker.next_guess() until None with a new Optimizer, then "
             "all levels again in random order (one twice, two partial runs first) on ONE Optimizer; oracle: multiset equality with "
